@@ -358,6 +358,10 @@ class GenOpts:
     big_prob: float = 0.03  # probability of a large array
     ext_prob: float = 0.38  # probability that a message / array is extensible
     scalar_prob: float = 0.55  # probability that an element type is a scalar rather than a reference
+    twin_scopes: float = 0.12  # probability that two top-level messages each get a nested enum `Status` and a nested message
+    #                           `Sample` of DIFFERENT shape, both used by fields (same simple name, other scope, other type)
+    shared_nested_names: float = 0.15  # probability that a definition nested in a TOP-LEVEL message takes a name that
+    #                                   definitions nested in other top-level messages use too (same name, other scope)
 
 
 class SchemaGen:
@@ -476,6 +480,13 @@ class SchemaGen:
                     d = self.enum(m)
                 else:
                     d = self.message(depth + 1, m)
+                if parent is None and r.random() < self.o.shared_nested_names:
+                    shared = ("EnShared" if isinstance(d, EnumDef) else "MsgShared") + r.choice(["", "B"])
+                    if all(x.name != shared for x in m.nested):
+                        d.name = shared
+                        if isinstance(d, EnumDef):
+                            up = "EN_SHARED" + ("_B" if shared.endswith("B") else "")
+                            d.members = [(f"{up}_V{chr(65 + i)}", v) for i, (_, v) in enumerate(d.members)]
                 m.nested.append(d)
                 self.all_named.append(d)
         nf = r.randint(0, self.o.max_fields) if r.random() < 0.9 else r.randint(0, 12)
@@ -509,7 +520,32 @@ class SchemaGen:
                 d = self.message(0, None)
             self.defs.append(d)
             self.all_named.append(d)
+        if r.random() < self.o.twin_scopes:
+            self.add_twins()
         return Schema(self.fresh("p").lower(), self.defs)
+
+    def add_twins(self) -> None:
+        r = self.rng
+        tops = [d for d in self.defs if isinstance(d, MsgDef)]
+        while len(tops) < 2:
+            m = MsgDef(self.fresh("Msg"), False)
+            self.defs.append(m)
+            tops.append(m)
+        for m in r.sample(tops, 2):
+            if any(x.name in ("Status", "Sample") for x in m.nested):
+                continue
+            used = {f.num for f in m.fields}
+            free = [k for k in range(1, 256) if k not in used]
+            w = r.choice([1, 2, 3, 6, 9, 12, 17])
+            en = EnumDef("Status", w, [("STATUS_VA", 0), ("STATUS_VB", (1 << w) - 1)], m)
+            sm = MsgDef("Sample", self.o.allow_ext and r.random() < 0.4, parent=m)
+            for i in range(r.randint(1, 3)):
+                sm.fields.append(Field(f"s{chr(97 + i)}_x", i + 1, self.scalar()))
+            m.nested += [en, sm]
+            m.fields.append(Field("tw_status", free[0], TRef(en)))
+            m.fields.append(Field("tw_samples", free[1], TArray(TRef(sm), r.choice([1, 2, 4]), self.o.allow_ext and r.random() < 0.4)))
+            while msg_nbits(m) > self.o.max_bits and len(m.fields) > 2:
+                m.fields.pop(0)
 
 
 # ---------------------------------------------------------------- values
